@@ -2,6 +2,7 @@ package props
 
 import (
 	"context"
+	"errors"
 	"fmt"
 	"reflect"
 	"strings"
@@ -37,29 +38,46 @@ var eqHookCreated, eqHookClosed atomic.Int64
 
 func (*eqHook) Close() error { eqHookClosed.Add(1); return nil }
 
+// eqBlank is registered and resolved by value, and its constructors return the
+// zero value of the type: an instance like any other (a lazily filled handle,
+// descriptor number 0).
+type eqBlank struct{ fd int }
+
+var eqBlankCreated, eqBlankClosed atomic.Int64
+
+func (eqBlank) Close() error { eqBlankClosed.Add(1); return nil }
+
 func TestC10EqualValues(t *testing.T) {
 	col := evid.New("C10", "indistinguishable-instances", "1-4 registrations (any lifetime, distinct names) of disposables that compare equal although they are distinct instances - a struct value holding only a pointer to a (possibly shared) pool, and pointers to a zero-size type - resolved a generated number of times in a generated scope tree, then scopes and provider closed; oracle (counts, since the instances cannot be told apart): after a scope / the provider is closed every constructor run on its behalf is matched by exactly one Close; non-trivial = two equal-comparing instances were owned by one scope or by the provider at the same time")
 	defer col.Flush()
 	rapid.Check(t, func(rt *rapid.T) {
 		eqHookCreated.Store(0)
 		eqHookClosed.Store(0)
+		eqBlankCreated.Store(0)
+		eqBlankClosed.Store(0)
 		shared := &eqPool{name: "shared"}
 		pools := []*eqPool{shared}
 		coll := godi.NewCollection()
 		n := rapid.IntRange(1, 4).Draw(rt, "nregs")
 		type reg struct {
-			key  string
-			hook bool
-			life int
-			pool *eqPool
+			key   string
+			hook  bool
+			blank bool
+			life  int
+			pool  *eqPool
 		}
 		var regs []reg
 		var desc []string
 		for i := 0; i < n; i++ {
 			r := reg{key: fmt.Sprintf("k%d", i), hook: rapid.IntRange(0, 2).Draw(rt, "hook") == 0, life: rapid.IntRange(0, 2).Draw(rt, "life")}
 			var ctor any
+			if !r.hook && rapid.IntRange(0, 2).Draw(rt, "blank") == 0 {
+				r.blank = true
+			}
 			if r.hook {
 				ctor = func() *eqHook { eqHookCreated.Add(1); return &eqHook{} }
+			} else if r.blank {
+				ctor = func() eqBlank { eqBlankCreated.Add(1); return eqBlank{} }
 			} else {
 				r.pool = shared
 				if rapid.Bool().Draw(rt, "ownPool") {
@@ -82,7 +100,11 @@ func TestC10EqualValues(t *testing.T) {
 				rt.Fatalf("registration failed: %v", err)
 			}
 			regs = append(regs, r)
-			desc = append(desc, fmt.Sprintf("%s:%s/%s", r.key, lifeName(r.life), map[bool]string{true: "zero-size-ptr", false: "value"}[r.hook]))
+			kind := map[bool]string{true: "zero-size-ptr", false: "value"}[r.hook]
+			if r.blank {
+				kind = "zero-value"
+			}
+			desc = append(desc, fmt.Sprintf("%s:%s/%s", r.key, lifeName(r.life), kind))
 		}
 		p, err := coll.Build()
 		if err != nil {
@@ -108,6 +130,8 @@ func TestC10EqualValues(t *testing.T) {
 			ty := reflect.TypeOf(eqLease{})
 			if r.hook {
 				ty = reflect.TypeOf(&eqHook{})
+			} else if r.blank {
+				ty = reflect.TypeOf(eqBlank{})
 			}
 			if _, err := targets[ti].GetKeyed(ty, r.key); err != nil {
 				rt.Fatalf("VIOLATION C10/equal-values [resolve]: GetKeyed(%v,%s): %v", ty, r.key, err)
@@ -118,7 +142,9 @@ func TestC10EqualValues(t *testing.T) {
 				owner = "provider"
 			}
 			class := "hook"
-			if !r.hook {
+			if r.blank {
+				class = "blank"
+			} else if !r.hook {
 				class = r.pool.name
 			}
 			perOwner[owner+"/"+class+"/"+r.key]++
@@ -148,8 +174,130 @@ func TestC10EqualValues(t *testing.T) {
 				rt.Fatalf("VIOLATION C10/exactly-once [equal-values/value]: %d value-type disposables of pool %s were constructed, %d Close calls arrived after everything was closed\n%s", c, pl.name, d, canon)
 			}
 		}
+		if c, d := eqBlankCreated.Load(), eqBlankClosed.Load(); c != d {
+			rt.Fatalf("VIOLATION C10/exactly-once [equal-values/zero-value]: %d value-type disposables holding the zero value of their type were constructed, %d Close calls arrived after everything was closed\n%s", c, d, canon)
+		}
 		if c, d := eqHookCreated.Load(), eqHookClosed.Load(); c != d {
 			rt.Fatalf("VIOLATION C10/exactly-once [equal-values/zero-size]: %d zero-size disposables were constructed, %d Close calls arrived after everything was closed\n%s", c, d, canon)
+		}
+	})
+}
+
+// eqFailing: a value-type disposable whose Close reports an error; its
+// constructors return the zero value of the type or a non-zero one.
+type eqFailing struct{ code int }
+
+var eqFailingClosed atomic.Int64
+
+func (f eqFailing) Close() error {
+	eqFailingClosed.Add(1)
+	return fmt.Errorf("eqFailing(%d): close failed", f.code)
+}
+
+// TestC12ValueDisposables: Close reports a disposal error exactly when a Close
+// method of something it owns failed - also when the instance is a struct held
+// by value, and also when that value happens to be the zero value of its type.
+func TestC12ValueDisposables(t *testing.T) {
+	col := evid.New("C12", "value-type-instances", "1-3 registrations (any lifetime, distinct names) of a disposable struct type registered and resolved by value whose Close returns an error, the constructors returning either the zero value of the type or a non-zero one, next to 0-2 value-type disposables that close fine; resolved a generated number of times from the provider and from flat scopes; each scope is closed, then the provider; oracle per Close call: it returns an error satisfying errors.As(DisposalError) exactly when a failing instance was owned by what it closes, and every failing instance constructed received exactly one Close call in the end; non-trivial = a failing instance holding the zero value was owned by a closed scope or the provider")
+	defer col.Flush()
+	rapid.Check(t, func(rt *rapid.T) {
+		eqFailingClosed.Store(0)
+		eqBlankCreated.Store(0)
+		eqBlankClosed.Store(0)
+		var created atomic.Int64
+		coll := godi.NewCollection()
+		type reg struct {
+			key     string
+			life    int
+			failing bool
+			zero    bool
+		}
+		var regs []reg
+		var desc []string
+		n := rapid.IntRange(1, 4).Draw(rt, "nregs")
+		for i := 0; i < n; i++ {
+			r := reg{key: fmt.Sprintf("k%d", i), life: rapid.IntRange(0, 2).Draw(rt, "life"), failing: i == 0 || rapid.Bool().Draw(rt, "failing"), zero: rapid.Bool().Draw(rt, "zero")}
+			var ctor any
+			switch {
+			case r.failing && r.zero:
+				ctor = func() eqFailing { created.Add(1); return eqFailing{} }
+			case r.failing:
+				ctor = func() eqFailing { created.Add(1); return eqFailing{code: 7} }
+			default:
+				ctor = func() eqBlank { eqBlankCreated.Add(1); return eqBlank{} }
+			}
+			var err error
+			switch r.life {
+			case 0:
+				err = coll.AddSingleton(ctor, godi.Name(r.key))
+			case 1:
+				err = coll.AddScoped(ctor, godi.Name(r.key))
+			default:
+				err = coll.AddTransient(ctor, godi.Name(r.key))
+			}
+			if err != nil {
+				rt.Fatalf("registration failed: %v", err)
+			}
+			regs = append(regs, r)
+			desc = append(desc, fmt.Sprintf("%s:%s/failing=%v/zero=%v", r.key, lifeName(r.life), r.failing, r.zero))
+		}
+		p, err := coll.Build()
+		if err != nil {
+			rt.Fatalf("VIOLATION C12/value-instances [build]: Build failed: %v", err)
+		}
+		nsc := rapid.IntRange(0, 3).Draw(rt, "nscopes")
+		targets := []godi.Provider{p}
+		for i := 0; i < nsc; i++ {
+			s, err := p.CreateScope(context.Background())
+			if err != nil {
+				rt.Fatalf("CreateScope: %v", err)
+			}
+			targets = append(targets, s)
+		}
+		ownsFailing := make([]bool, len(targets)) // index 0: the provider (singletons + root scope)
+		ownsZeroFailing := false
+		for _, r := range regs {
+			if r.life == 0 && r.failing {
+				ownsFailing[0] = true
+				ownsZeroFailing = ownsZeroFailing || r.zero
+			}
+		}
+		var steps []string
+		for i := rapid.IntRange(1, 10).Draw(rt, "ngets"); i > 0; i-- {
+			ti := rapid.IntRange(0, len(targets)-1).Draw(rt, "target")
+			r := rapid.SampledFrom(regs).Draw(rt, "reg")
+			ty := reflect.TypeOf(eqBlank{})
+			if r.failing {
+				ty = reflect.TypeOf(eqFailing{})
+			}
+			if _, err := targets[ti].GetKeyed(ty, r.key); err != nil {
+				rt.Fatalf("VIOLATION C12/value-instances [resolve]: GetKeyed(%v,%s): %v", ty, r.key, err)
+			}
+			steps = append(steps, fmt.Sprintf("get(t%d,%s)", ti, r.key))
+			if r.failing && r.life != 0 {
+				ownsFailing[ti] = true
+				ownsZeroFailing = ownsZeroFailing || r.zero
+			}
+		}
+		canon := strings.Join(desc, " ") + " | scopes=" + fmt.Sprint(nsc) + " | " + strings.Join(steps, " ")
+		col.Case(ownsZeroFailing, canon, canon)
+		judge := func(what string, err error, want bool) {
+			var de *godi.DisposalError
+			var dev godi.DisposalError
+			isDisposal := errors.As(err, &de) || errors.As(err, &dev)
+			if want && !isDisposal {
+				rt.Fatalf("VIOLATION C12/reports [value-instance/swallowed]: Close of %s returned %v although a Close method of an instance it owns failed\n%s", what, err, canon)
+			}
+			if !want && err != nil {
+				rt.Fatalf("VIOLATION C12/reports [value-instance/spurious]: Close of %s returned %v although nothing it owns failed to close\n%s", what, err, canon)
+			}
+		}
+		for i := 1; i < len(targets); i++ {
+			judge(fmt.Sprintf("scope t%d", i), targets[i].(godi.Scope).Close(), ownsFailing[i])
+		}
+		judge("the provider", p.Close(), ownsFailing[0])
+		if c, d := created.Load(), eqFailingClosed.Load(); c != d {
+			rt.Fatalf("VIOLATION C12/complete-under-errors [value-instance]: %d failing value-type disposables were constructed, %d Close calls arrived after everything was closed\n%s", c, d, canon)
 		}
 	})
 }
